@@ -23,6 +23,9 @@ CONSTANTS Size,      \* window size
           Reanchor,  \* TRUE: Add moves currentSlot back for an on-time row that precedes it
           LateAll,   \* TRUE (the code since the repair): a late row updates EVERY open fired window containing it, also when it
                      \* lies in the current window as well; FALSE: the old handleLateData (one window, none when in the current one)
+          RegisterEarly, \* TRUE (the code since repair b8703e6): a fired window is registered for late data BEFORE the lock is
+                     \* released for its delivery (as the tumbling window does); FALSE: only after the delivery, when the lock has
+                     \* been taken again - a late row arriving in between finds no open window and is dropped (LateRedelivered fails)
           Emit       \* TRUE: print every complete behaviour as a JSON scenario
 
 VARIABLES data, cur, maxTs, wmCur, wmSent, wmChan, open, tpc, twm, pend, out, emitted, hist
@@ -58,10 +61,12 @@ LateUpd(op, o, d1, idxs, mx) ==
            rows == op[i].snap \o mine
        IN LateUpd([op EXCEPT ![i].snap = rows], Append(o, [ws |-> ws, ids |-> Ids(rows), kind |-> "late", maxAt |-> mx]), d1, Tail(idxs), mx)
 OpenIdx(ts) == {i \in 1..Len(open) : InWin(ts, open[i].ws)}
+\* the contract's view (C02): windows containing ts whose first firing has been delivered and whose allowance the watermark has not passed
+DeliveredOpen(ts, wm) == {out[j].ws : j \in {k \in 1..Len(out) : out[k].kind = "first" /\ InWin(ts, out[k].ws) /\ out[k].ws + Size + AL > wm}}
 
 Add(ts) ==
   /\ Len(emitted) < MaxEv
-  /\ tpc \in {"idle", "fired"}             \* tw.mu is free in both
+  /\ tpc \in {"idle", "fired", "sent"}     \* sw.mu is free in all three
   /\ LET id    == Len(emitted) + 1
          row   == [id |-> id, ts |-> ts]
          wm1   == NewWm(ts)
@@ -75,7 +80,7 @@ Add(ts) ==
      /\ maxTs' = NewMax(ts) /\ wmCur' = wm1
      /\ wmSent' = IF send THEN wm1 ELSE wmSent
      /\ wmChan' = IF send THEN Append(wmChan, wm1) ELSE wmChan
-     /\ emitted' = Append(emitted, [id |-> id, ts |-> ts, late |-> late, owed |-> IF late /\ AL > 0 THEN {open[i].ws : i \in oi} ELSE {}])
+     /\ emitted' = Append(emitted, [id |-> id, ts |-> ts, late |-> late, owed |-> IF late /\ AL > 0 THEN {open[i].ws : i \in oi} \cup DeliveredOpen(ts, wm1) ELSE {}])
      /\ hist' = Append(hist, [a |-> "add", id |-> id, ts |-> ts])
      /\ IF ~late \/ (inCur /\ ~LateAll)
           THEN /\ data' = d1 /\ open' = open /\ out' = out
@@ -119,7 +124,7 @@ Run(wm, step, op) ==
   LET r == Loop(data, cur, wm) IN
   IF r.k = "fired"
     THEN /\ data' = r.d /\ cur' = r.c
-         /\ open' = op
+         /\ open' = IF RegisterEarly /\ AL > 0 THEN Append(op, [ws |-> r.ws, snap |-> r.rows]) ELSE op
          /\ pend' = [ws |-> r.ws, rows |-> r.rows]
          /\ tpc' = "fired" /\ twm' = wm
          /\ hist' = Append(hist, [a |-> step])
@@ -135,13 +140,19 @@ Trig ==
   /\ Run(Head(wmChan), "trig", open)
   /\ UNCHANGED <<maxTs, wmCur, wmSent, out, emitted>>
 
-\* callback + sendResult outside the lock, then re-lock, register the window as open for
-\* late data (only now - unlike the tumbling window) and continue the loop
+\* callback + sendResult outside the lock: the delivery becomes observable, the lock is still free
 Send ==
   /\ tpc = "fired"
   /\ out' = Append(out, [ws |-> pend.ws, ids |-> Ids(pend.rows), kind |-> "first", maxAt |-> maxTs])
-  /\ Run(twm, "send", IF AL > 0 THEN Append(open, [ws |-> pend.ws, snap |-> pend.rows]) ELSE open)
-  /\ UNCHANGED <<maxTs, wmCur, wmSent, wmChan, emitted>>
+  /\ tpc' = "sent"
+  /\ hist' = Append(hist, [a |-> "send"])
+  /\ UNCHANGED <<data, cur, maxTs, wmCur, wmSent, wmChan, open, twm, pend, emitted>>
+
+\* the trigger goroutine takes the lock again (the old code registered the window as open for late data only now) and continues the loop
+Relock ==
+  /\ tpc = "sent"
+  /\ Run(twm, "relock", IF ~RegisterEarly /\ AL > 0 THEN Append(open, [ws |-> pend.ws, snap |-> pend.rows]) ELSE open)
+  /\ UNCHANGED <<maxTs, wmCur, wmSent, wmChan, out, emitted>>
 
 \* Watermark.update (ticker, every WatermarkInterval): re-send a watermark that did not fit into the full channel.
 \* It takes only the watermark's own lock, so it may interleave anywhere.
@@ -154,7 +165,7 @@ Tick ==
 Quiet == tpc = "idle" /\ wmChan = <<>> /\ wmSent = wmCur
 Complete == Len(emitted) = MaxEv /\ Quiet
 
-Next == (\E ts \in 0..MaxTs : Add(ts)) \/ Trig \/ Send \/ Tick
+Next == (\E ts \in 0..MaxTs : Add(ts)) \/ Trig \/ Send \/ Relock \/ Tick
 
 Spec == Init /\ [][Next]_vars
 
@@ -177,6 +188,26 @@ BatchOK(i) ==
         /\ AL > 0
         /\ SeqSet(out[j].ids) \subseteq SeqSet(b.ids)
 DeliveriesOK == \A i \in 1..Len(out) : BatchOK(i)
+
+\* The same with the known deviation "LateUpdateOvertakes" admitted (KNOWN_FINDINGS.json; since the window is registered before the
+\* lock is released - repair b8703e6 - the sliding window shares it with the tumbling window): the first firing of a window may reach
+\* the output AFTER a late update of the same window that Add produced while the trigger goroutine was between releasing the lock and
+\* sending (its rows are then a subset, the missing ones all late).
+BatchOKDev(i) ==
+  LET b == out[i] IN
+  /\ b.ws % Slide = 0 /\ Len(b.ids) > 0
+  /\ \A k \in 1..Len(b.ids) : InWin(Ts(b.ids[k]), b.ws)
+  /\ \A k, l \in 1..Len(b.ids) : k # l => b.ids[k] # b.ids[l]
+  /\ b.maxAt >= b.ws + Size + MOO
+  /\ (b.kind = "first" => \A j \in 1..(i-1) : out[j].kind = "first" => out[j].ws < b.ws)
+  /\ \A j \in 1..(i-1) : out[j].ws = b.ws =>
+        /\ AL > 0
+        /\ \/ SeqSet(out[j].ids) \subseteq SeqSet(b.ids)
+           \/ /\ b.kind = "first" /\ out[j].kind = "late"
+              /\ SeqSet(b.ids) \subseteq SeqSet(out[j].ids)
+              /\ \A id \in SeqSet(out[j].ids) \ SeqSet(b.ids) : emitted[id].late
+DeliveriesOKDev == \A i \in 1..Len(out) : BatchOKDev(i)
+OneFirstFiring == \A i, j \in 1..Len(out) : (i # j /\ out[i].kind = "first" /\ out[j].kind = "first") => out[i].ws # out[j].ws
 
 \* at quiescence every on-time row is in EVERY reportable interval covering it that the watermark passed
 Delivered(id, ws) == \E i \in 1..Len(out) : id \in SeqSet(out[i].ids) /\ out[i].ws = ws
